@@ -116,9 +116,9 @@ var EvalOpts = &syntax.FileOptions{Set: true}
 // k) that only READ x: concatenation, repetition, slicing, conversion.  Nobody
 // mutates anything; x must be exactly as before, whoever evaluates them.
 var ReadOnlyExprs = map[string][]string{
-	"tuple":  {"x + (k,)", "(k,) + x", "x * 2", "x * 1", "1 * x", "x[1:] + (k,)", "x[:1] + (k, k)", "(x + (k,)) + (k,)", "x + ()", "tuple(x) + (k,)"},
-	"tslice": {"x + (k,)", "(k,) + x", "x * 2", "x * 1", "x[:1] + (k, k)", "(x + (k,)) + (k, k)", "x + ()"},
-	"tcat":   {"x + (k,)", "(k,) + x", "x * 2", "x * 1", "x[:1] + (k, k)", "(x + (k,)) + (k, k)", "x + ()"},
+	"tuple":  {"x[:1] + (k,)", "x[1:2] + (k,)", "x[:-1] + (k,)", "x[:len(x)//2] + (k, k)", "x[1:-1] + (k, k, k)", "x + (k,)", "(k,) + x", "x * 2", "x * 1", "1 * x", "x[1:] + (k,)", "x[:1] + (k, k)", "(x + (k,)) + (k,)", "x + ()", "tuple(x) + (k,)"},
+	"tslice": {"x[:1] + (k,)", "x[:-1] + (k, k)", "x + (k,)", "(k,) + x", "x * 2", "x * 1", "x[:1] + (k, k)", "(x + (k,)) + (k, k)", "x + ()"},
+	"tcat":   {"x[:1] + (k,)", "x[1:2] + (k,)", "x[:-1] + (k, k)", "x + (k,)", "(k,) + x", "x * 2", "x * 1", "x[:1] + (k, k)", "(x + (k,)) + (k, k)", "x + ()"},
 	"list":   {"x + [k]", "[k] + x", "x * 2", "x[1:] + [k]", "tuple(x) + (k,)", "sorted(x, key=lambda e: 0) + [k]"},
 	"dict":   {"x | {k: k}", "{k: k} | x", "x.items() + [k]", "x.keys() + [k]"},
 	"set":    {"x | set([k])", "x.union([k])", "x - set([k])", "x ^ set([k])", "sorted(x, key=lambda e: 0) + [k]"},
